@@ -91,18 +91,9 @@ func mfTables(p mfParsed, b []byte) string {
 // signed (as converged-security-suite does, or by signing twice); presetHash = false leaves the field
 // at its zero value, and the manifest that comes out does not verify (note in reports/C16.md).
 func buildKM(r *rand.Rand, n int, priv *rsa.PrivateKey, scheme, halg int, rnd byte, presetHash bool) ([]byte, error) {
-	m := cbntkey.NewManifest()
-	m.Revision, m.KMSVN, m.KMID = uint8(r.Intn(256)), cbnt.SVN(r.Intn(16)), uint8(r.Intn(16))
+	m := kmContent(r, n)
 	if presetHash {
 		m.PubKeyHashAlg = cbnt.Algorithm(halg)
-	}
-	for i := 0; i < n; i++ {
-		alg, sz := cbnt.AlgSHA256, 32
-		if r.Intn(2) == 0 {
-			alg, sz = cbnt.AlgSHA384, 48
-		}
-		m.Hash = append(m.Hash, cbntkey.Hash{Usage: cbntkey.Usage(1 << uint(r.Intn(4))),
-			Digest: cbnt.HashStructure{HashAlg: alg, HashBuffer: randBytes(r, sz)}})
 	}
 	// a placeholder key and signature of the final sizes are not needed: KeyAndSignature is the last
 	// field, the accessor does not depend on it
@@ -122,9 +113,24 @@ func buildKM(r *rand.Rand, n int, priv *rsa.PrivateKey, scheme, halg int, rnd by
 	return buf.Bytes(), nil
 }
 
-// buildBPM: a boot policy manifest (BPMH, one SE with segments and digests, optional PME), signed
-// through fiano.
-func buildBPM(r *rand.Rand, nSeg int, withPM bool, priv *rsa.PrivateKey, scheme, halg int, rnd byte) ([]byte, error) {
+// kmContent: a key manifest with n hashes, not signed yet.
+func kmContent(r *rand.Rand, n int) *cbntkey.Manifest {
+	m := cbntkey.NewManifest()
+	m.Revision, m.KMSVN, m.KMID = uint8(r.Intn(256)), cbnt.SVN(r.Intn(16)), uint8(r.Intn(16))
+	for i := 0; i < n; i++ {
+		alg, sz := cbnt.AlgSHA256, 32
+		if r.Intn(2) == 0 {
+			alg, sz = cbnt.AlgSHA384, 48
+		}
+		m.Hash = append(m.Hash, cbntkey.Hash{Usage: cbntkey.Usage(1 << uint(r.Intn(4))),
+			Digest: cbnt.HashStructure{HashAlg: alg, HashBuffer: randBytes(r, sz)}})
+	}
+	return m
+}
+
+// bpmContent: a boot policy manifest (BPMH, one SE with segments and digests, optional PME), not
+// signed yet.
+func bpmContent(r *rand.Rand, nSeg int, withPM bool) *cbntbootpolicy.Manifest {
 	m := cbntbootpolicy.NewManifest()
 	m.BPMH.BPMRevision, m.BPMH.BPMSVN, m.BPMH.ACMSVNAuth = uint8(r.Intn(256)), cbnt.SVN(r.Intn(16)), cbnt.SVN(r.Intn(16))
 	se := cbntbootpolicy.NewSE()
@@ -143,6 +149,12 @@ func buildBPM(r *rand.Rand, nSeg int, withPM bool, priv *rsa.PrivateKey, scheme,
 		pm.Data = randBytes(r, r.Intn(40))
 		m.PME = pm
 	}
+	return m
+}
+
+// buildBPM: a boot policy manifest, signed through fiano.
+func buildBPM(r *rand.Rand, nSeg int, withPM bool, priv *rsa.PrivateKey, scheme, halg int, rnd byte) ([]byte, error) {
+	m := bpmContent(r, nSeg, withPM)
 	m.RehashRecursive()
 	var buf bytes.Buffer
 	if _, err := m.WriteTo(&buf); err != nil {
